@@ -8,6 +8,9 @@ CHECKS = {}
 def add(i, level, engine, technique, text, note, ref):
     CHECKS[i] = (level, engine, technique, text, note, ref)
 
+add("C04", MC, "vsched", "stateless model checking of the real code under a controlled scheduler: all interleavings of a handler script with the expiry of the deadline on a virtual clock and with client cancellation, up to a preemption bound and a timer-deviation bound",
+    "Every interleaving (P<=2,T<=1 quick; P<=3,T<=2 thorough) of every handler script of <= 2 (3) actions from {set header, WriteHeader, Write chunk} x {return, panic, stall past the deadline then write, wait for the context then write} x parent context {none, earlier deadline, later deadline, cancelled during, cancelled before} on the real rest TimeoutHandler against a recording client; every work behaviour x parent deadline on the zRPC UnaryTimeoutInterceptor (default and per-method timeout) and fx.DoWithTimeout; every default x per-call x incoming-deadline combination of the zRPC client TimeoutInterceptor; every global x per-route REST timeout setting through the real engine.bindRoutes. Oracles: client sees exactly the complete response, or exactly 503/499 + timeout body, or the re-raised panic with nothing written; timeout result only after a real expiry/cancel; wrapper returns without the stalled work; nothing reaches the client after ServeHTTP returned; deadline seen by the work == min(parent deadline, start + timeout); websocket/SSE bypass.",
+    "http.Flusher use by the handler is outside the listed behaviours (a flush before the deadline streams a partial response by design) and is not explored; bounded to the listed scripts and deviation bounds; the shim's model of context/timers (DESIGN 2.3).", "DESIGN.md#c04")
 add("C05", MC, "vsched", "stateless model checking of the real code under a controlled scheduler: all interleavings up to a preemption bound and a timer-deviation bound (iterative context bounding + happens-before fingerprint pruning)",
     "Every interleaving (P<=2,T<=1 quick; P<=3,T<=2 thorough; completed bounds per scenario in the evidence) of 3-4 holders competing for capacity 1-3 of syncx.Limit, syncx.TimeoutLimit (virtual timeout racing Return), syncx.Pool (incl. max-age expiry on the virtual clock), threading.TaskRunner, rest MaxConnsHandler and the mr/fx worker pools, with panics placed in holders; oracles: in-region gauge <= n, refusals only while n permits are out, exact admission counts when holders are parked on a gate, full capacity restored afterwards, over-return reported.",
     "Bounded to the listed thread counts, capacities and deviation bounds; sequential consistency; the shim's model of channels (incl. parking as a visible transition), sync and timers (DESIGN 2.3, 2.9).", "DESIGN.md#c05")
@@ -20,6 +23,9 @@ add("C06", MC, "seqx+vsched", "explicit-state breadth-first search over read/wri
 add("C08", EX, "enumx", "bounded-exhaustive enumeration of a struct-type family x input family against an independent constraint evaluator",
     "15.9M (430M thorough) evaluations: every 1-2 field (3 in thorough) struct type over 11 field kinds x optional / optional=dep / optional=!dep / default / range (all bracket forms) / options / string under json, form, path and header keys x per-field inputs (absent, null, range boundaries and neighbours, options and non-options, wrong types, numeric strings, fractions) through UnmarshalJsonBytes, UnmarshalKey, the form/path/header unmarshalers, httpx.Parse and conf.LoadFromJsonBytes; oracles: soundness (accepted => constraints hold and the target holds exactly supplied values / defaults), completeness (valid well-typed input accepted), totality (no panic).",
     "Exhaustive within the stated family; null and non-canonical convertible renderings are bracketed (either verdict accepted); YAML/TOML renderings are C17's business.", "DESIGN.md#c08")
+add("C09", EX, "enumx", "bounded-exhaustive enumeration of route tables x requests against a naive reference matcher",
+    "225k route tables (every ordered table of <= 3 (method, pattern) pairs over patterns of 0-3 segments from {a, b, :v<depth>} incl. un-clean spellings; largest tables modulo method/literal renaming in quick, every labelling in thorough) x 336+ requests (4 methods x every 0-3 segment path over {a,b,c,empty} incl. paths needing cleaning) = 78.7M requests through the real router's ServeHTTP: handler reached iff the reference matches, the same route (literal preferred at the first differing segment), pathvar.Vars equal the bound segments; otherwise 405 with Allow equal to the other matching methods, else 404; duplicate, unsupported-method and non-slash registrations rejected.",
+    "Precondition of the statement (one variable name per position) built into the pattern family; quick reduces the largest tables by a renaming symmetry recorded in the evidence.", "DESIGN.md#c09")
 add("C10", MC, "vsched", "stateless model checking of the real code under a controlled scheduler: all interleavings x fault placements up to a preemption bound and a timer-deviation bound (iterative context bounding + happens-before fingerprint pruning)",
     "Every interleaving (P<=1,T<=1 quick; P<=2 thorough; completed bounds per scenario in the evidence) of ~110 small MapReduce instances (0-3 items, 1-2 workers, fan-out 0-2; MapReduce, MapReduceVoid, MapReduceChan, ForEach, Finish, FinishVoid) crossed with single faults and fault pairs (generator/mapper/reducer panic, cancel(err), cancel(nil), stalled mapper, early or missing reducer output, context deadline on the virtual clock, cancellation by another thread), run on go-zero's own core/mr rewritten onto the scheduler shim. Oracles from the statement: exactly-once mapping and complete reduction when nothing is cancelled, worker cap, justified error or re-raised user panic otherwise, no caller deadlock, no thread of the call alive after the user functions returned, never a runtime panic. Three genuine defect classes of the shutdown protocol are listed in known_findings.txt.",
     "Bounded to the listed instance sizes, fault menus and deviation bounds; sequential consistency; the shim's model of channels/select/sync/context (DESIGN 2.3, 2.9).", "DESIGN.md#c10")
